@@ -58,6 +58,11 @@ CheckObs(S, id, o) ==
                 /\ Say(o.r.v.anc = IsAnc(S, a.x, a.y), id, "C10", "pair.is_ancestor_of", why)
                 /\ Say(o.r.v.desc = IsAnc(S, a.y, a.x), id, "C10", "pair.is_descendant_of", why)
                 /\ Say(o.r.v.common = CommonAnc(S, a.x, a.y), id, "C10", "pair.common_ancestor", why))
+     [] o.q = "pair_foreign" ->     \* y is a node of ANOTHER tree (same shape, same node_ids): no relation, no common ancestor
+          /\ Say(o.r.s = "ok", id, "C10", "pair_foreign.status:" \o o.r.s, why)
+          /\ (o.r.s = "ok" =>
+                /\ Say(~o.r.v.anc /\ ~o.r.v.desc, id, "C10", "pair_foreign.related", why)
+                /\ Say(o.r.v.common = 0, id, "C10", "pair_foreign.common_ancestor", why))
      [] o.q = "tree" ->
           /\ Say(o.r.s = "ok", id, "C10", "tree.status:" \o o.r.s, why)
           /\ (o.r.s = "ok" =>
